@@ -37,6 +37,7 @@ class HSym:
         self.cin = concrete_inputs        # dict name -> value (concrete cross-check mode) or None
         self.observations = {}
         self.ensures = []                 # (name, bool) in concrete mode
+        self.symbolic = concrete_inputs is None       # False in the concrete cross-check run: harnesses install callee contracts (fresh results) only when symbolic
 
     # ---------------------------------------------------------------- inputs
     def _decl(self, name, sort):
